@@ -51,6 +51,16 @@ def _pad_functions(P):
                     if is_assign(a) and "bitpack_buffer" in src(a.c[0]) and a.c[1].cv is not None:
                         out.append(f)
                         break
+            elif lp.k == "IfStmt":
+                # the same padding in one call: `if (count < 8) { memset(&buffer[count], 0, ...); count = 8; }`
+                kids = [x for x in lp.c if x is not None]
+                if "bitpack_count" not in src(kids[0]) or "8" not in src(kids[0]):
+                    continue
+                for c in kids[1].walk():
+                    if c.k == "CallExpr" and c.callee in ("memset", "__builtin_memset") and c.args() and \
+                            "bitpack_buffer" in src(c.args()[0]) and c.args()[1].cv is not None:
+                        out.append(f)
+                        break
     return list({f.name: f for f in out}.values())
 
 
